@@ -322,6 +322,21 @@ def _eq_hash(rep, M, O, file):
             bad += 1
             rep.violation("R3", "obis.Obis.__eq__", "unparsable-other" if want is False and not any(ch.isdigit() for ch in text) else "eq-not-groups",
                           f"comparison of groups {g} with the string {text!r} gives {r[1]} instead of {want}", file, eq.node.lineno)
+    # the other comparison operators: `!=` is the negation of `==` (Python derives it unless the class defines __ne__ itself); no ordering is defined
+    ne = O.methods.get("__ne__")
+    if ne is not None:
+        pairs = [(obj(a_), obj(b_), want) for a_, b_, want in cases[:8]] + [(obj(g), text, want) for text, g, want in
+                                                                                (("1-2:3.4.5*6", base, True), ("1-2:3.4.5", base, False), ("not a code", base, False), ("3.4", (None, None, 3, 4, None, None), True))]
+        for x, y, want in pairs:
+            r = AE.apply(ne, [x, y])
+            n += 1
+            if r[0] in ("undecided", "branch"):
+                raise Undecided(f"Obis.__ne__ outside the interpreted subset: {r[1]}")
+            if r[0] != "value" or r[1] is not (not want):
+                bad += 1
+                rep.violation("R3", "obis.Obis.__ne__", "ne-not-negation", "`!=` is not the negation of `==` (an explicit __ne__ disagrees with __eq__): equal codes compare unequal or a string operand is not parsed", file,
+                              ne.node.lineno, witness=f"{x!r} != {y!r} gives {r[1] if r[0] == 'value' else r}"[:200])
+                break
     if not bad:
         rep.ok("R3", "__eq__ / __hash__", f"{n} comparisons (every single-group difference incl. None/0/255, both operand orders, string operands parsed first, non-codes -> False); equal objects hash equally")
     cg = cdr_groups_finding(M)
